@@ -52,6 +52,7 @@ type uModel struct {
 	Routers   map[string]string // name -> RouterConfiguration JSON
 	Clusters  map[string]*mCluster
 	Listeners map[string]string // name -> router the listener's proxy uses
+	LSF       map[string]string // name -> the listener's stream filters, in order ("" = none)
 }
 
 type Update struct {
@@ -100,9 +101,12 @@ var uDomains = []string{"*", "a.test", "b.test"}
 var uClusters = []string{"cA", "cB", "cC", "cD"}
 
 func (w *Update) cloneModel() uModel {
-	m := uModel{Routers: map[string]string{}, Clusters: map[string]*mCluster{}, Listeners: map[string]string{}}
+	m := uModel{Routers: map[string]string{}, Clusters: map[string]*mCluster{}, Listeners: map[string]string{}, LSF: map[string]string{}}
 	for k, v := range w.M.Listeners {
 		m.Listeners[k] = v
+	}
+	for k, v := range w.M.LSF {
+		m.LSF[k] = v
 	}
 	for k, v := range w.M.Routers {
 		m.Routers[k] = v
@@ -270,7 +274,7 @@ func (w *Update) plantMarkers(v reflect.Value, seed uint64) {
 func NewUpdate(s *sim.Sim, prop string) *Update {
 	w := &Update{S: s, Prop: prop, H: peers.NewHistory(), Stats: map[string]int{}}
 	w.N = sim.NewNet(s)
-	w.M = uModel{Routers: map[string]string{}, Clusters: map[string]*mCluster{}, Listeners: map[string]string{"l0": "r0", "ltls": "r0", "ltls2": "r0"}}
+	w.M = uModel{Routers: map[string]string{}, Clusters: map[string]*mCluster{}, Listeners: map[string]string{"l0": "r0", "ltls": "r0", "ltls2": "r0"}, LSF: map[string]string{}}
 	return w
 }
 
@@ -625,6 +629,17 @@ func (w *Update) nextOp() {
 		if idle != "" {
 			ljm["connection_idle_timeout"] = idle
 		}
+		// the listener's stream filters change from update to update (none, one, two in either order);
+		// requests on connections accepted long before must run the list that is in force
+		sfl := pickFrom(ch, "work", "lstreamfilters", [][]string{nil, nil, {"ua"}, {"ub", "ua"}, {"ua", "ub"}})
+		if len(sfl) > 0 {
+			var sfs []J
+			for _, n := range sfl {
+				sfs = append(sfs, J{"type": "verif_scripted", "config": J{"name": n, "phase": 0, "send": false}})
+			}
+			ljm["stream_filters"] = sfs
+		}
+		m.LSF[name] = strings.Join(sfl, ",")
 		lj := mustJSON(ljm)
 		if w.lIdle == nil {
 			w.lIdle = map[string]string{}
@@ -663,6 +678,7 @@ func (w *Update) nextOp() {
 		desc += " " + name
 		run = func() { _ = server.GetListenerAdapterInstance().DeleteListener("", name) }
 		delete(m.Listeners, name)
+		delete(m.LSF, name)
 		delete(w.lFilters, name)
 		delete(w.lIdle, name)
 	case "xds.cluster.update", "xds.cluster.del":
@@ -1237,7 +1253,7 @@ func (w *Update) final() {
 		w.Stats["rejected_listener_updates"] += w.rejectedUpdates
 		if w.rejectedAccepted {
 			s.Violate("C12", "mismatched_listener_update_accepted", "an update of listener l0 that names another listen address was accepted; history %v", w.opLog)
-		} else if calls := FLog.Calls(); len(calls) > 0 {
+		} else if calls := fxCalls(); len(calls) > 0 {
 			s.Violate("C12", "rejected_update_changed_live_filters", "a listener update that was refused (address does not match the name) still installed its stream filter: filter %q ran %d times on later requests although no accepted update configured any stream filter; history %v", calls[0].Filter, len(calls), w.opLog)
 		}
 	}
@@ -1316,6 +1332,30 @@ func (w *Update) checkTraffic() {
 				}
 			}
 		}
+		// the listener's stream filters: when every configuration in force during the request names the same
+		// list, that list ran, in that order (an in-place listener update reaches the connections it has)
+		lsf := map[string]bool{}
+		for _, m := range over {
+			lsf[m.LSF["l0"]] = true
+		}
+		if len(lsf) == 1 {
+			var want []string
+			for l := range lsf {
+				if l != "" {
+					want = strings.Split(l, ",")
+				}
+			}
+			var got []string
+			for _, c := range FLog.Calls() {
+				if c.Kind == "recv" && c.Tok == r.Token && c.Filter != "fx" {
+					got = append(got, c.Filter)
+				}
+			}
+			w.Stats["stream_filter_lists_checked"]++
+			if fmt.Sprint(got) != fmt.Sprint(want) {
+				s.Violate("C12", "stream_filters_differ_from_configuration", "req#%d (sent %v): the listener's configuration in force names the stream filters %v, the request ran %v (its connection was accepted at %v); history %v", r.Idx, r.SentAt, want, got, w.connAt, w.opLog)
+			}
+		}
 		w.Stats["traffic_checked"]++
 		rep := r.Replies[0]
 		if rep.Tok == r.Token {
@@ -1331,3 +1371,14 @@ func (w *Update) checkTraffic() {
 }
 
 func (w *Update) OpLog() []string { return w.opLog }
+
+// fxCalls: calls of the stream filter that only the refused listener update names
+func fxCalls() []FilterCall {
+	var out []FilterCall
+	for _, c := range FLog.Calls() {
+		if c.Filter == "fx" {
+			out = append(out, c)
+		}
+	}
+	return out
+}
